@@ -70,12 +70,13 @@ var mbTypes = []block.Type{block.TxBlock, block.StateBlock, block.PeerBlock, blo
 func main() {
 	r := vk.Start("C33")
 	ceiling := r.N(2048, 4000)
-	r.Rule(fmt.Sprintf("one case = (miniblock count m in 0..%d, tx count t, distribution of the t hashes over the miniblocks, shard-id mode, type mode); t is the largest count for which the estimate still says 'fits' (boundary) in 2/3 of the cases, a random smaller count otherwise; bodies are built from block.MiniBlock values with 32-byte random hashes and marshalled as block.Body with the production GogoProtoMarshalizer. Non-trivial when the estimate says the body fits and m+t > 0; distinct = distinct (m bucket, distribution, id mode, type mode, boundary?) tuples.", ceiling))
+	r.Rule(fmt.Sprintf("one case = (miniblock count m in 0..%d, tx count t, distribution of the t hashes over the miniblocks, shard-id mode, type mode); t is the largest count for which the estimate still says 'fits' (boundary) in 2/3 of the cases, a random smaller count otherwise; bodies are built from block.MiniBlock values with 32-byte random hashes and marshalled as block.Body with the production GogoProtoMarshalizer. Non-trivial when the estimate says the body fits and m+t > 0; distinct = distinct (m bucket, distribution, id mode, type mode, boundary?) tuples. Second phase (proposer simulation): histories of 6..15 rounds on the real block size throttler + size computation driven like the block processor (ComputeCurrentMaxSize, Init, fill while IsMaxBlockSizeReached is false with AddNumMiniBlocks/AddNumTxs, marshal, Add, Succeed or not; bodies above the allowed size fail more often); styles: many tiny META/ALL reward miniblocks / mixed / few big. Third phase: 4..12 goroutines add known totals concurrently, a second instance gets the same totals sequentially, boundaries compared.", ceiling))
 	r.Assume(
 		fmt.Sprintf("miniblock ceiling %d per body (assumption: a body holds one miniblock per (sender, receiver, type) per included header; the linear model undershoots by up to ~9 bytes per miniblock, so the margin is exhausted near the reported break-even count)", ceiling),
 		"tx hashes are 32 bytes; MiniBlock.Reserved is empty",
 		"production setting: estimate cap 943718 bytes (config.toml), network limit 1 MB - 64 KB (p2p/libp2p maxSendBuffSize)",
 		"shard ids from {0..3,127,128,255,999,16384,META,ALL}, all seven miniblock types",
+		"the block size throttler never allows more than its configured maximum (checked as throttle-max-above-configured), which is what ties the throttled predicate to the network limit",
 	)
 	r.MinShapes(60)
 
@@ -104,8 +105,19 @@ func main() {
 	var mu sync.Mutex
 	maxActual, maxUnder, maxPerMbMilli := 0, 0, 0
 
-	nCases := r.N(700, 7000)
-	r.Parallel(nCases, func(c *vk.Case) {
+	nStatic := r.N(500, 6000)
+	nSim := r.N(120, 1500)
+	nConc := r.N(80, 800)
+	r.Extra("cases_static_sim_concurrent", []int{nStatic, nSim, nConc})
+	r.Parallel(nStatic+nSim+nConc, func(c *vk.Case) {
+		if c.Idx >= nStatic+nSim {
+			concurrentAdds(r, c, m)
+			return
+		}
+		if c.Idx >= nStatic {
+			proposerSim(r, c, ceiling, m)
+			return
+		}
 		rng := c.Rng
 		var nmb int
 		switch rng.Intn(8) {
